@@ -26,6 +26,10 @@ def gen(chk, tier):
     for _ in range(10 if q else 2000):
         g.one("genkey_random", "sm2.genkey", nilreader=False, script=sm2gen.script_of([rng.getrandbits(256), rscalar(rng)]))
     g.one("genkey_nil", "sm2.genkey", nilreader=True, script=[])
+    # very long runs of rejected candidates before a valid one (a retry limit is not part of the property)
+    for n_, cand in ((5000, T256 - 1), (70000, 0), (70000, N - 1)):
+        g.one("genkey_long_rejected_run", "sm2.genkey", nilreader=False, run=dict(d=b32(cand), n=n_),
+              script=sm2gen.script_of([rscalar(rng), rscalar(rng)]))
     # sources that deliver fewer than 32 bytes per Read (one byte at a time, ragged, half units) and
     # streams that end in the middle of a candidate
     for _ in range(6 if q else 60):
